@@ -363,6 +363,16 @@ func premLoadImportsNonEmptyTree(c *Ctx) (bool, string) {
 		for _, b := range ifs.Body.List {
 			if as, ok := b.(*ast.AssignStmt); ok && c.Src(as.Lhs[0]) == tree {
 				reassigned = true
+				// tree = helper(...): a new helper whose every result has had a child appended
+				if len(as.Rhs) == 1 {
+					if hc, ok := unparen(as.Rhs[0]).(*ast.CallExpr); ok {
+						if o := c.Callee(hc); o != nil && c.isNewHelper(o) {
+							if hfd := c.DeclOf(o); hfd != nil && c.returnsNonEmptyTree(hfd) {
+								appended = true
+							}
+						}
+					}
+				}
 			}
 			if es, ok := b.(*ast.ExprStmt); ok {
 				if cc, ok := es.X.(*ast.CallExpr); ok && c.CalleeName(cc) == "token.Append" {
@@ -457,6 +467,35 @@ func (c *Ctx) selectionDrain(loop *ast.ForStmt) string {
 	}
 	if K == "" || F == "" {
 		return "the selection does not set both the selected key and a found flag from the range variable"
+	}
+	// the flag starts false in every round: it is declared or reset in the loop body before the selection
+	reset := false
+	for _, s := range list[:rngIdx] {
+		switch x := s.(type) {
+		case *ast.AssignStmt:
+			for i, l := range x.Lhs {
+				if c.Src(l) == F && i < len(x.Rhs) {
+					if id, ok := unparen(x.Rhs[i]).(*ast.Ident); ok && id.Name == "false" {
+						reset = true
+					}
+				}
+			}
+		case *ast.DeclStmt:
+			if gd, ok := x.Decl.(*ast.GenDecl); ok {
+				for _, sp := range gd.Specs {
+					if vs, ok := sp.(*ast.ValueSpec); ok {
+						for i, nm := range vs.Names {
+							if nm.Name == F && (len(vs.Values) == 0 || (i < len(vs.Values) && isIdent(vs.Values[i], "false"))) {
+								reset = true
+							}
+						}
+					}
+				}
+			}
+		}
+	}
+	if !reset {
+		return "the found flag `" + F + "` is not reset to false at the start of each round: once one round has selected a package it stays true, so a later round that finds nothing (an import cycle behind at least one loadable package) skips the error and goes on with the stale key"
 	}
 	// after the range: if !F { return }
 	guard := -1
@@ -836,4 +875,52 @@ func (c *Ctx) selectionDrainIndexed(loop *ast.ForStmt) string {
 		return "the candidate list is not shrunk at the selected index every iteration"
 	}
 	return ""
+}
+
+// returnsNonEmptyTree: every return of fd yields a local *token on which Append was called
+// (unconditionally, at the top level of the body) before the return.
+func (c *Ctx) returnsNonEmptyTree(fd *ast.FuncDecl) bool {
+	if fd.Body == nil {
+		return false
+	}
+	appended := map[types.Object]bool{}
+	ok, n := true, 0
+	for _, s := range fd.Body.List {
+		switch x := s.(type) {
+		case *ast.ExprStmt:
+			if call, isCall := x.X.(*ast.CallExpr); isCall && c.CalleeName(call) == "token.Append" {
+				if sel, isSel := unparen(call.Fun).(*ast.SelectorExpr); isSel {
+					if id, isID := unparen(sel.X).(*ast.Ident); isID && c.Obj(id) != nil {
+						appended[c.Obj(id)] = true
+					}
+				}
+			}
+		case *ast.ReturnStmt:
+			n++
+			if len(x.Results) != 1 {
+				ok = false
+				continue
+			}
+			id, isID := unparen(x.Results[0]).(*ast.Ident)
+			if !isID || !appended[c.Obj(id)] {
+				ok = false
+			}
+		}
+	}
+	// returns nested in other statements are not understood
+	ast.Inspect(fd.Body, func(m ast.Node) bool {
+		if rs, isRet := m.(*ast.ReturnStmt); isRet {
+			top := false
+			for _, s := range fd.Body.List {
+				if s == ast.Stmt(rs) {
+					top = true
+				}
+			}
+			if !top {
+				ok = false
+			}
+		}
+		return true
+	})
+	return ok && n > 0
 }
